@@ -5,7 +5,7 @@ from sa.engine.api import *
 from sa.engine import callgraph
 from sa.rules._helpers_D import *
 
-UNITS = ["node/miner.cpp", "node/mining_args.cpp", "validation.cpp", "rpc/mining.cpp"]
+UNITS = ["node/miner.cpp", "node/mining_args.cpp", "validation.cpp", "rpc/mining.cpp", "txgraph.cpp"]
 BA = "node::BlockAssembler::"
 EXPLANATION = ("MPT/ORDER on BlockAssembler::CreateNewBlock: the template is returned only if test_block_validity is off or TestBlockValidity(chainstate, *pblock) "
                "reported a valid state, and TestBlockValidity runs after the last write to the block; PROVENANCE: the coinbase output value is "
@@ -19,7 +19,12 @@ EXPLANATION = ("MPT/ORDER on BlockAssembler::CreateNewBlock: the template is ret
                "condition under which GetMinimumTime applies the BIP94 timewarp floor (height expression % modulus == 0) and the floor itself (prev block time - "
                "MAX_TIMEWARP) are extracted from the facts and compared with the `time-timewarp-attack` rung of ContextualCheckBlockHeader (same height term, every "
                "caller passes DifficultyAdjustmentInterval() as the modulus, same bound); min_time starts at the `time-too-old` bound + 1; UpdateTime sets nTime from "
-               "max(GetMinimumTime, now) and CreateNewBlock always calls it on the tip.")
+               "max(GetMinimumTime, now) and CreateNewBlock always calls it on the tip. TOPOLOGY (necessary condition of parents-before-children): "
+               "BlockBuilderImpl::m_known_end_of_cluster is written only by Next (false) and GetCurrentChunk, where the literal true is stored exactly under the "
+               "end-of-cluster sentinel m_chunk_count == LinearizationIndex(-1) and otherwise the result of Cluster::GetClusterRefs; Skip() excludes the current "
+               "cluster whenever there is one and the flag is not set, then advances; Next() stops only at the end or at a chunk whose cluster is not excluded; the "
+               "mempool wrappers map SkipBuilderChunk/IncludeBuilderChunk/GetBlockBuilderChunk to Skip/Include/GetCurrentChunk, and addChunks calls Skip exactly "
+               "when the chunk is not added and Include (with AddToBlock) exactly when it is.")
 ASSUMPTIONS = ["TestBlockValidity performs full consensus validation of the block on top of the tip (C01-C06)",
                "CTxMemPool::GetBlockBuilderChunk returns chunks in a topologically valid order with their total weight in FeePerWeight::size (TxGraph BlockBuilder, not decided)",
                "CTxMemPoolEntry::GetTxWeight / GetSigOpCost / GetFee are the entry's weight, sigop cost and base fee"]
@@ -52,6 +57,7 @@ def check(ctx):
     _add_chunks(ctx, P)
     _options(ctx, P)
     _min_time(ctx, P)
+    _block_builder(ctx, P)
 
 
 def _create_new_block(ctx, P):
@@ -376,3 +382,113 @@ def _min_time(ctx, P):
     mf.run()
     rr = [(st, s2) for st, s2 in mf.exits if s2.get("k") == "ret"]
     ctx.ob("CreateNewBlock/update-time", "ORDER", "every returned template went through UpdateTime(pblock, consensus params, tip)", bool(rr) and all("TIME_UPDATED" in st for st, _ in rr), cn.where)
+
+
+# ------------------------------------------------------------------------------------------ TxGraph block builder: skip/exclude protocol
+
+BB = "BlockBuilderImpl::"
+FLAG = "BlockBuilderImpl::m_known_end_of_cluster"
+
+
+def _own(s, sub, kinds=("if", "sc", "case", "loop")):
+    return F.mk_and([g.formula(sub) for g in s.guards if g.kind in kinds])
+
+
+def _block_builder(ctx, P):
+    cg = callgraph.load_all()
+    w = {x[0] for x in cg.writers(FLAG)}
+    ctx.ob("BlockBuilder/flag-writers", "WHO-MAY-WRITE", "m_known_end_of_cluster is written only by BlockBuilderImpl::Next and BlockBuilderImpl::GetCurrentChunk",
+           w == {BB + "Next", BB + "GetCurrentChunk"}, None, {"writers": sorted(w)})
+    gc = ctx.used(P.fn(BB + "GetCurrentChunk"))
+    gs = naming(gc, P)
+    nx = ctx.used(P.fn(BB + "Next"))
+    ns = naming(nx, P)
+    is_flag_write = lambda e: e[0] == "b" and e[1] in ASSIGN_OPS and match([".", ANY, FLAG], e[2])
+    wr = sites(gc, is_flag_write, P)
+    ctx.floor("GetCurrentChunk writes of m_known_end_of_cluster", len(wr), 2)
+    NOTDONE = (re.compile(r"m_cur_iter == m_graph\.m_main_chunkindex\.end\(\)|m_graph\.m_main_chunkindex\.end\(\) == m_cur_iter"), False)
+    SENT = re.compile(r"\*m_cur_iter\.m_chunk_count == 4294967295")
+    for s in wr:
+        v = strip_wrappers(s.expr[3])
+        own, _, un = F.bind_atoms(_own(s, gs), {"NOTDONE": NOTDONE, "SENTINEL": SENT})
+        if s.expr[1] == "=" and match(["bool", True], v):
+            ok = F.counterexample(own, F.parse("SENTINEL")) is None and not un
+            ctx.ob("GetCurrentChunk/flag-true@L%s" % s.line, "LADDER", "m_known_end_of_cluster = true is stored only under the end-of-cluster sentinel "
+                   "m_chunk_count == LinearizationIndex(-1) (a single remaining transaction), under no weaker condition", ok, s.where, {"guard": F.fshow(_own(s, gs)), "unbound": un})
+        elif s.expr[1] == "=" and callee(v) == "Cluster::GetClusterRefs" or (s.expr[1] == "=" and (callee(v) or "").endswith("::GetClusterRefs")):
+            ok = show(call_obj(v)) == "m_cur_cluster" and F.counterexample(own, F.parse("!SENTINEL")) is None
+            ctx.ob("GetCurrentChunk/flag-from-cluster@L%s" % s.line, "PROVENANCE", "otherwise the flag is what the current cluster's GetClusterRefs reports for this chunk", ok, s.where,
+                   {"value": show(v)})
+        else:
+            ctx.ob("GetCurrentChunk/flag-value@L%s" % s.line, "TABLE", "m_known_end_of_cluster only ever receives `true` (sentinel case) or GetClusterRefs' result in GetCurrentChunk",
+                   False, s.where, {"write": show(s.expr)})
+    kinds = sorted(("true" if match(["bool", True], strip_wrappers(s.expr[3])) else "refs") for s in wr)
+    ctx.ob("GetCurrentChunk/flag-both-cases", "TABLE", "both cases (sentinel -> true, otherwise GetClusterRefs) are present", kinds == ["refs", "true"], gc.where, {"kinds": kinds})
+    nw = sites(nx, is_flag_write, P)
+    ok = len(nw) >= 1 and all(s.expr[1] == "=" and match(["bool", False], strip_wrappers(s.expr[3])) for s in nw)
+    ctx.ob("Next/flag-reset", "TABLE", "Next only ever resets the flag to false (when it moves to another chunk)", ok, nx.where, {"writes": [show(s.expr) for s in nw]})
+    # Next stops only at the end or at a chunk of a cluster that was not excluded
+    brk = [s for s in stmt_sites(nx, lambda st: st.get("k") == "break", P)]
+    ctx.floor("Next loop exits", len(brk), 2)
+    okb = True
+    gl = []
+    for s in brk:
+        own, _, un = F.bind_atoms(_own(s, ns, ("if", "sc", "case")), {"END": re.compile(r"m_cur_iter == m_graph\.m_main_chunkindex\.end\(\)|m_graph\.m_main_chunkindex\.end\(\) == m_cur_iter"),
+                                                                     "EXCLUDED": re.compile(r"m_excluded_clusters\.contains\(m_cur_cluster\.m_sequence\)")})
+        gl.append(F.fshow(_own(s, ns, ("if", "sc", "case"))))
+        okb = okb and not un and (F.equivalent(own, F.parse("END")) or F.equivalent(own, F.parse("!EXCLUDED")))
+    loops = [st for st in stmts(nx.body) if st.get("k") in ("while", "for", "do")]
+    okb = okb and len(loops) == 1 and not any(st.get("k") in ("ret", "continue") for st in stmts(loops[0].get("b")))
+    ctx.ob("Next/skips-excluded", "LADDER", "Next advances until the end or until the current chunk belongs to a cluster that is not excluded (chunks of excluded clusters are "
+           "never offered)", okb, nx.where, {"break_guards": gl})
+    cur = [s for s in sites(nx, lambda e: e[0] == "b" and e[1] == "=" and match([".", ANY, "BlockBuilderImpl::m_cur_cluster"], e[2]) and not match(["null"], strip_wrappers(e[3])), P)]
+    ok = len(cur) == 1 and re.fullmatch(r"m_graph\.m_entries\[\*m_cur_iter\.m_graph_index\]\.m_locator\[0\]\.cluster", xkey(cur[0].expr[3], ns)) is not None
+    ctx.ob("Next/cur-cluster", "PROVENANCE", "m_cur_cluster is the main-level cluster of the chunk m_cur_iter points at", ok, cur[0].where if cur else nx.where,
+           {"value": xkey(cur[0].expr[3], ns) if cur else None})
+    # Skip
+    sk = ctx.used(P.fn(BB + "Skip"))
+    ss = naming(sk, P)
+    ex = sites(sk, lambda e: callee(e) in ("std::set::insert", "std::unordered_set::insert", "std::set::emplace", "std::unordered_set::emplace") and
+               match([".", ANY, "BlockBuilderImpl::m_excluded_clusters"], call_obj(e)), P)
+    ok = len(ex) == 1
+    if ok:
+        own, _, un = F.bind_atoms(_own(ex[0], ss), {"CLUSTER": "m_cur_cluster", "KNOWN_END": "m_known_end_of_cluster"})
+        ok = F.counterexample(F.parse("CLUSTER && !KNOWN_END"), own) is None and [xkey(a, ss) for a in call_args(ex[0].expr)] == ["m_cur_cluster.m_sequence"]
+    ctx.ob("Skip/excludes-cluster", "LADDER", "Skip() excludes the current cluster (by its sequence number) whenever there is one and the chunk is not known to be its last",
+           ok, ex[0].where if ex else sk.where, {"guard": F.fshow(_own(ex[0], ss)) if ex else None})
+    for fn, what in ((sk, "Skip"), (ctx.used(P.fn(BB + "Include")), "Include")):
+        mf = MustFlow(fn, P, marks=[("NEXT", call_to(BB + "Next"))])
+        mf.run()
+        ctx.ob("%s/advances" % what, "ORDER", "%s() always advances to the next chunk" % what, bool(mf.exits) and all("NEXT" in st for st, _ in mf.exits), fn.where)
+    inc = P.fn(BB + "Include")
+    bad = [show(x) for _, e in all_exprs(inc.body) for x in subexprs(e) if callee(x) and "m_excluded_clusters" in show(x)]
+    ctx.ob("Include/no-exclusion", "EFFECT", "Include() does not exclude anything", not bad, inc.where)
+    # mempool wrappers
+    for q, target in (("CTxMemPool::SkipBuilderChunk", "Skip"), ("CTxMemPool::IncludeBuilderChunk", "Include"), ("CTxMemPool::GetBlockBuilderChunk", "GetCurrentChunk")):
+        f = ctx.used(P.fn(q))
+        cs_ = [x for _, e in all_exprs(f.body) for x in subexprs(e) if (callee(x) or "").startswith("TxGraph::BlockBuilder::") and show(call_obj(x)) == "m_builder"]
+        names = sorted({callee(x).rsplit("::", 1)[-1] for x in cs_})
+        ctx.ob("%s/forwards" % q.rsplit("::", 1)[-1], "PROVENANCE", "%s forwards to m_builder->%s() and to no other builder operation" % (q, target), names == [target], f.where,
+               {"calls": names})
+    ov = {k.rsplit("::", 1)[-1]: sorted(cg.overriders.get(k, ())) for k in ("TxGraph::BlockBuilder::Skip", "TxGraph::BlockBuilder::Include", "TxGraph::BlockBuilder::GetCurrentChunk")}
+    ctx.ob("BlockBuilder/single-implementation", "CALLGRAPH", "BlockBuilderImpl is the only implementation of TxGraph::BlockBuilder", all(v == [BB + k] for k, v in ov.items()), None, ov)
+    # the miner: Skip exactly when not added, Include (and AddToBlock) exactly when added
+    ac = ctx.used(P.fn(BA + "addChunks"))
+    asub = naming(ac, P)
+    loops = [st for st in stmts(ac.body) if st.get("k") == "while"]
+    if len(loops) != 1:
+        raise AnalysisBroken("addChunks: chunk loop not found")
+    lp = loops[0]
+    sks = [s for s in sites(ac, call_to("CTxMemPool::SkipBuilderChunk"), P) if lp in s.loops]
+    ins = [s for s in sites(ac, call_to("CTxMemPool::IncludeBuilderChunk"), P) if lp in s.loops]
+    ads = [s for s in sites(ac, call_to(BA + "AddToBlock"), P) if lp in s.loops]
+    allb = sites(ac, lambda e: callee(e) in ("CTxMemPool::SkipBuilderChunk", "CTxMemPool::IncludeBuilderChunk", BA + "AddToBlock"), P)
+    ok = len(sks) == 1 and len(ins) == 1 and len(ads) == 1 and len(allb) == 3
+    if ok:
+        inl = lambda s: F.mk_and([g.formula(site_subst(asub, s)) for g in in_loop_guards(s, lp) if g.kind != "post"])
+        S, I, A = inl(sks[0]), inl(ins[0]), inl(ads[0])
+        ok = F.equivalent(S, F.mk_not(I)) and F.equivalent(A, I) and F.equivalent(F.mk_and([g.formula(asub) for g in in_loop_guards(sks[0], lp) if g.kind == "post"]),
+                                                                                    F.mk_and([g.formula(asub) for g in in_loop_guards(ins[0], lp) if g.kind == "post"]))
+    ctx.ob("addChunks/skip-iff-not-included", "LADDER", "in every round of addChunks that decides on a chunk, SkipBuilderChunk is called exactly when the chunk is not added and "
+           "IncludeBuilderChunk (with AddToBlock for its transactions) exactly when it is", bool(ok), ac.where,
+           {"skip": F.fshow(S), "include": F.fshow(I), "add": F.fshow(A)} if len(sks) == 1 and len(ins) == 1 and len(ads) == 1 and len(allb) == 3 else None)
